@@ -100,8 +100,18 @@ class Pool:
     """a pool of submittable tasks: top-level descriptors, node lists, expected outputs, and the name of
     the module whose `--run` entry point defines the tasks against the pydra under test"""
 
-    def __init__(self, top, children, expected, module):
+    def __init__(self, top, children, expected, module, collect_fail=(), cf_fail_ok=None):
         self.top, self.children, self.expected, self.module = top, children, expected, module
+        # workflow identities whose *output collection* can be made to fail (after all nodes succeeded)
+        self.collect_fail = list(collect_fail)
+        # identities that may fail in a pool-worker submission of `top` without leaving the sequential model
+        # (a failure there stops nothing that the async expansion would still run)
+        self._cf_fail_ok = cf_fail_ok
+
+    def cf_fail_ok(self, top):
+        if self._cf_fail_ok is not None:
+            return self._cf_fail_ok(top)
+        return [top] if self.is_leaf(top) else []
 
     def universe(self):
         out = []
@@ -300,10 +310,17 @@ def _run_history(h, build, hooks, logf, flagdir, base):
                 elif kind == "zero":
                     open(os.path.join(p, "_result.pklz"), "wb").close()
                 elif kind == "truncated":
+                    # a writer died inside cp.dump: non-empty, unloadable (EOFError / UnpicklingError)
                     import cloudpickle as cp
                     data = cp.dumps({"some": list(range(50))})
                     with open(os.path.join(p, "_result.pklz"), "wb") as f:
                         f.write(data[: len(data) // 2])
+                    with open(os.path.join(p, "_job.pklz"), "wb") as f:
+                        f.write(b"leftover")
+                elif kind == "garbage":
+                    # one byte of a pickle stream: the shortest non-empty unloadable result file
+                    with open(os.path.join(p, "_result.pklz"), "wb") as f:
+                        f.write(b"\x80")
                 ob["planted"] = True
             else:
                 ob["planted"] = False
@@ -328,9 +345,15 @@ def _run_history(h, build, hooks, logf, flagdir, base):
                                   raise_errors=(False if how == "noraise" else None))
                     errored = bool(res.errored)
                     outs = res.outputs
-                if errored:
+                if not errored and outs is None:
+                    ob["reported"] = ["ok", None]          # a "success" without outputs
+                elif errored:
                     # C13: the failure comes with the recorded error (_error.pklz readable through Result.errors)
                     ob["reported"] = ["err", "result.errored", bool(res.errors)]
+                    try:
+                        ob["error_text"] = "".join(res.errors["error message"])[-600:] if res.errors else None
+                    except Exception:
+                        ob["error_text"] = None
                 else:
                     ob["reported"] = ["ok", {a.name: _canon(getattr(outs, a.name)) for a in attrs.fields(type(outs))
                                              if not a.name.startswith("_")}]
@@ -417,14 +440,17 @@ def run_batches(histories, module="harness.c11", par=6, timeout=1500):
 
 
 # ---- generation ---------------------------------------------------------------------------------
-def gen_history(rng, pool=POOL, nlocs=3, flaky_p=0.35, kinds=("empty", "jobonly", "zero"), nflaky=(0, 1, 1, 2),
+def gen_history(rng, pool=POOL, nlocs=3, flaky_p=0.35,
+                kinds=("empty", "jobonly", "zero", "empty", "jobonly", "zero", "truncated", "garbage"),
+                nflaky=(0, 1, 1, 2),
                 p_plant=0.18, p_rerun=0.3, p_cf=0.25):
     univ = pool.universe()
     leaves = [d for d in univ if pool.is_leaf(d)]
     n = rng.choice([3, 4, 5, 6, 7, 8, 8])
     # a history concentrates on few tasks so that identities recur
     focus = rng.sample(pool.top, rng.choice([1, 2, 2, 3]))
-    flaky = rng.sample(leaves, rng.choice(list(nflaky)))
+    cand = leaves + pool.collect_fail
+    flaky = rng.sample(cand, min(len(cand), rng.choice(list(nflaky))))
     main_root = rng.randrange(nlocs)
     steps = []
     for _ in range(n):
@@ -444,10 +470,13 @@ def gen_history(rng, pool=POOL, nlocs=3, flaky_p=0.35, kinds=("empty", "jobonly"
         worker = "debug"
         if rng.random() < p_cf:
             # the pool worker: nodes run concurrently in other processes, nested workflows in this one
-            # (expand_workflow_async).  Failing bodies are kept to the sequential worker: with a failure the
-            # async expansion goes on with the independent nodes, which the sequential model does not describe.
-            worker, how, fail = "cf", "submit", []
-        steps.append({"op": "submit", "desc": rng.choice(focus), "root": root, "ro": ro, "rerun": rerun,
+            # (expand_workflow_async).  With a failing node the async expansion goes on with the independent
+            # nodes, which the sequential model does not describe: failures are restricted to pool.cf_fail_ok.
+            worker, how = "cf", "submit"
+        desc = rng.choice(focus)
+        if worker == "cf":
+            fail = [d for d in fail if d in pool.cf_fail_ok(desc)]
+        steps.append({"op": "submit", "desc": desc, "root": root, "ro": ro, "rerun": rerun,
                       "prop": prop, "how": how, "fail": fail, "worker": worker})
     return {"universe": univ, "nlocs": nlocs, "steps": steps}
 
@@ -572,7 +601,7 @@ Definition lookup_val (t : list (nat * nat)) (c : nat) : nat :=
   match find (fun e => Nat.eqb (fst e) c) t with Some e => snd e | None => 0 end.
 Definition mkworld (fails : list nat) (vals : list (nat * nat)) : world :=
   {| body := fun c _ _ => if existsb (Nat.eqb c) fails then Err else Ok (lookup_val vals c);
-     wfval := fun c _ => lookup_val vals c |}.
+     wfout := fun c _ _ => if existsb (Nat.eqb c) fails then Err else Ok (lookup_val vals c) |}.
 Definition erase (e : event) : nat * nat :=
   match e with EvHit c _ => (c, 0) | EvRun c _ (Ok _) => (c, 1) | EvRun c _ Err => (c, 2) end.
 Definition ev_list_eqb (a b : list event) : bool :=
@@ -604,7 +633,13 @@ Definition mkobs (c : case_t) (sub : submission) : observed :=
 Definition spec_ok (c : case_t) : bool :=
   let '(u, fails, vals, pre, x, evs, rep, post, raw, ordered) := c in
   match x with
-  | Submit sub => step_spec_core_b u (mkobs c sub) && raw && wf_taskb (s_task sub)
+  | Submit sub => step_spec_core_b u (mkobs c sub) && raw && wf_taskb (s_task sub) &&
+                  (* an identity made to fail at this step never shows up as a successful execution *)
+                  forallb (fun e => match e with EvRun c0 _ (Ok _) => negb (existsb (Nat.eqb c0) fails) | _ => true end) evs &&
+                  (* and when nothing is made to fail, nothing fails: every execution succeeds, success is reported *)
+                  (match fails with
+                   | [] => forallb (fun e => match e with EvRun _ _ Err => false | _ => true end) evs && is_ok rep
+                   | _ => true end)
   | Plant l c0 => true
   end.
 Definition reuse_ok (c : case_t) : bool :=
@@ -643,7 +678,7 @@ def build_cases(histories, observations, pool=POOL):
             pre_tab, unk0 = store_table(before, cs2id)
             post_tab, unk = store_table(so["after"], cs2id)
             info = {"history": hi, "step": k, "op": step, "pre": pre_tab, "post": post_tab, "log": so["log"],
-                    "reported": so.get("reported"), "steps_so_far": h["steps"][: k + 1]}
+                    "reported": so.get("reported"), "error_text": so.get("error_text"), "steps_so_far": h["steps"][: k + 1]}
             if unk:
                 problems.append((info, unk, "unexpected entry in a cache location after the step"))
             try:
@@ -706,6 +741,45 @@ def build_cases(histories, observations, pool=POOL):
     return cases, meta, problems
 
 
+def in_race_class(m, pool):
+    """Known finding F11c: under an async worker a node job launched with rerun still has its *old* result in the
+    cache root until the worker process clears it; NodeExecution.update_status / Job.done read that stale result
+    and report the node finished, so a dependent node resolves its lazy input while the directory is being
+    recreated ("Could not find results") — or consumes the stale value; a stale *errored* result makes Job.done
+    raise and the node is moved to 'errored' while it is being re-executed.  Input class: pool worker, a workflow,
+    and one of its nodes is going to be executed although a complete result for it is listed (rerun with
+    propagation over its previous result in the root, or a stored failure first in the listed order).  The
+    sequential model does not describe this interleaving: such steps are compared with the spec only."""
+    op = m["op"]
+    if op.get("op") != "submit" or op.get("worker") != "cf":
+        return False
+    nodes = []
+
+    def walk(d):
+        for c in pool.children(d):
+            nodes.append(c)
+            walk(c)
+
+    walk(op["desc"])
+    if not nodes:
+        return False
+    univ = [json.dumps(d) for d in pool.universe()]
+    ids = {univ.index(json.dumps(d)) for d in nodes}
+    pre = {(l, c): st for l, c, st in m["pre"]}
+    for c in ids:
+        # the node will be executed although a complete result for it is listed: either rerun reaches it and
+        # the root holds its previous result, or the first complete result in the listed order is a failure
+        if op["rerun"] and op["prop"] and pre.get((op["root"], c), "partial") != "partial":
+            return True
+        for l in [op["root"]] + op["ro"]:
+            st = pre.get((l, c), "partial")
+            if st != "partial":
+                if st == ["err"]:
+                    return True
+                break
+    return False
+
+
 def classify_reuse_failure(i, res):
     """finding id for a failing reuse check, from the Coq classifiers"""
     if i in res["cls_errored"]:       # not_errored_shadow false => in class F11b
@@ -728,7 +802,7 @@ def describe(m):
     return {"steps": m["steps_so_far"], "step_index": m["step"]}
 
 
-def run(ctx, prop="C11", pool=POOL, gen=gen_history, rule=None, budget=(60, 300)):
+def run(ctx, prop="C11", pool=POOL, gen=gen_history, rule=None, budget=(35, 300)):
     rng = ctx.rng
     os.makedirs(ctx.scratch.dir, exist_ok=True)   # the runner's widened context shares (and removes) this directory
     n = ctx.budget(*budget)
@@ -784,8 +858,20 @@ def run(ctx, prop="C11", pool=POOL, gen=gen_history, rule=None, budget=(60, 300)
         info, observed, note = pr[:3]
         out.failures.append(Failure(case=describe(info) if "steps_so_far" in info else info, observed=observed,
                                     expected=None, note=note, kind=pr[3] if len(pr) > 3 else "tie"))
+    race = {i for i, m in enumerate(meta) if in_race_class(m, pool)}
+    res["tie"] = [i for i in res["tie"] if i not in race]       # outside the sequential model's domain: spec only
+    dist["cf_rerun_over_stale_results"] = len(race)
     for i in res["spec"][:10]:
         m = meta[i]
+        if i in race and prop != "C11":
+            continue            # the race of rerun against stale results is C11's known finding F11c
+        if i in race:
+            out.failures.append(Failure(case=describe(m), observed={"events": m.get("events"), "reported": m["reported"],
+                                                                     "error_text": m.get("error_text")},
+                                        expected="nothing was made to fail: every job of the workflow executes and succeeds",
+                                        kind="spec", finding="F11c",
+                                        note="rerun under an async worker races with the stale results of the previous run"))
+            continue
         out.failures.append(Failure(case=describe(m), observed={"events": m.get("events"), "reported": m["reported"],
                                                                  "store_before": m["pre"], "store_after": m["post"],
                                                                  "raw_unchanged_outside_root": m.get("raw_same")},
@@ -802,7 +888,7 @@ def run(ctx, prop="C11", pool=POOL, gen=gen_history, rule=None, budget=(60, 300)
     for i in res["tie"][:10]:
         m = meta[i]
         out.failures.append(Failure(case=describe(m), observed={"events": m.get("events"), "reported": m["reported"],
-                                                                 "store_after": m["post"]},
+                                                                 "store_after": m["post"], "error_text": m.get("error_text")},
                                     expected=explain(ctx, cases[i], "tie"), kind="tie", note="model/impl"))
     out.extra = {"wall_impl_s": round(t1 - t0, 1), "wall_coq_cases_s": round(t2 - t1, 1),
                  "reuse_failures_by_class": {"F11b": sum(1 for i in res["reuse"] if classify_reuse_failure(i, res) == "F11b"),
